@@ -27,7 +27,8 @@ def supported(tr):
     sim = cfgk["sim"]
     if sim.get("signal"):
         return "signal_mode"
-    if sim.get("matching_type", "current_bar") not in ("current_bar", "vwap"):
+    minute = cfgk.get("frequency", "1d") == "1m"
+    if sim.get("matching_type", "current_bar") not in (("current_bar", "vwap", "next_bar") if minute else ("current_bar", "vwap")):
         return "matching_type"
     if S.get("_trade_handler_acts") or S.get("_c06_plans"):
         return "strategy_acts_inside_trade_handler"
@@ -59,7 +60,8 @@ def cfg_toks(ix, cfgk):
     common = [risk.get("validate_price", True), risk.get("validate_is_trading", True), risk.get("validate_cash", True), risk.get("validate_self_trade", False)]
     t += [str(int(x)) for x in [am.get("validate_stock_position", True)] + common]
     t += [str(int(x)) for x in [am.get("validate_future_position", True)] + common]
-    t += [str(int(am.get("stock_t1", True))), str(int(bool(am.get("dividend_reinvestment", False)))), str(int(bool((cfgk.get("base_extra") or {}).get("forced_liquidation", True))))]
+    t += [str(int(am.get("stock_t1", True))), str(int(bool(am.get("dividend_reinvestment", False)))), str(int(bool((cfgk.get("base_extra") or {}).get("forced_liquidation", True)))),
+          str(int(sim.get("matching_type", "current_bar") in ("current_bar", "vwap")))]
     return t
 
 
@@ -109,6 +111,33 @@ def day_toks(ix, cfgk, today8):
     return t
 
 
+def minute_rows(ix, cfgk, dt):
+    """the minute bar of every instrument at `dt`, from the table the harness's minute data source serves"""
+    import minute_source
+    import numpy as np
+    from rqalpha.utils.datetime_func import convert_dt_to_int
+    mt = cfgk["sim"].get("matching_type", "current_bar")
+    key = np.uint64(convert_dt_to_int(dt))
+    rows = []
+    for oid, n in ix.ids.items():
+        bars = minute_source.MIN.get(oid)
+        if bars is None or len(bars) == 0:
+            continue
+        pos = bars["datetime"].searchsorted(key)
+        if pos >= len(bars) or bars["datetime"][pos] != key:
+            rows.append([str(n), "-", "-", "-", "-", "-"])
+            continue
+        b = bars[pos]
+        if mt == "next_bar":
+            deal = float(b["open"])
+        elif mt == "vwap":
+            deal = float(b["total_turnover"]) / float(b["volume"]) if float(b["volume"]) != 0 else float("nan")
+        else:
+            deal = float(b["close"])
+        rows.append([str(n), of2b(float(b["close"])), of2b(deal), of2b(float(b["limit_up"])), of2b(float(b["limit_down"])), of2b(float(b["volume"]))])
+    return rows
+
+
 def build_request(tr, ix):
     """-> (line, the input items that went in) or (None, reason)"""
     cfgk = tr.cfg
@@ -130,6 +159,10 @@ def build_request(tr, ix):
         k = it["k"]
         if k == "P":
             body += ["P"] + day_toks(ix, cfgk, it["today"])
+        elif k == "R" and cfgk.get("frequency", "1d") == "1m":
+            rows = minute_rows(ix, cfgk, it["dt"])
+            body += ["M", str(len(rows))] + [x for r in rows for x in r] + ["R"]
+            items.append({"k": "M"})
         elif k in ("B", "A", "R", "T", "S"):
             body.append(k)
         elif k == "O":
